@@ -27,13 +27,15 @@ def gen_cases(rng, tier):
         ham = c01.gen_ham(rng, 'restricted', 2, norb, 'sparse', True, True)
         cases.append({'kind': 'acse', 'norb': norb, 'n': na + nb, 'sz': na - nb,
                       'vec': fqeio.random_state(rng, norb, keys, density=0.9, amp=2), 'ham': ham})
-    for _ in range(6 if tier == 'quick' else 40):
+    for _ in range(8 if tier == 'quick' else 40):
         norb = 2
-        na, nb = rng.randint(0, norb), rng.randint(0, norb)
+        # mostly >= 3 electrons: in a 2-electron sector the 3-RDM vanishes and 8 of the 12 contractions are idle;
+        # unstructured tensors A (no permutational symmetry at all)
+        na, nb = rng.choice([(2, 1), (1, 2), (2, 2), (2, 1), (1, 2), (1, 1), (2, 0)])
         keys = [(na + nb, na - nb)]
         nso = 2 * norb
         ents = []
-        for _k in range(rng.randint(1, 6)):
+        for _k in range(rng.randint(2, 8)):
             ix = [rng.randrange(nso) for _ in range(4)]
             ents.append([ix, rng.randint(-2, 2) or 1, rng.randint(-2, 2)])
         cases.append({'kind': 'rdo', 'norb': norb, 'n': na + nb, 'sz': na - nb,
